@@ -64,7 +64,9 @@ def build(spec):
     from lenskit.data import from_interactions_df
     from lenskit.pipeline import predict_pipeline, topn_pipeline
     df = pd.DataFrame(spec["ratings"], columns=["user_id", "item_id", "rating"])
-    df["rating"] = df["rating"].astype(np.float64) / 2
+    # the magnitude of the ratings is a dimension of its own: with rating_exp = -135 every rating, mean and offset is a subnormal
+    # single-precision number (scores are handed out in single precision)
+    df["rating"] = df["rating"].astype(np.float64) / 2 * 2.0 ** int(spec.get("rating_exp") or 0)
     ds = from_interactions_df(df)
     if spec.get("fail_user") is not None:
         scorer = FailingKNN(k=3, min_nbrs=1) if spec["scorer"] == "iknn" else FailingBias(damping=2)
